@@ -18,7 +18,10 @@ import (
 	logslog "log/slog"
 	"os"
 	"os/exec"
+	"path/filepath"
+	"regexp"
 	"runtime"
+	"strconv"
 	"strings"
 
 	"github.com/hedzr/logg/slog"
@@ -388,6 +391,50 @@ func c14Sweep(seed uint64, tier string, build string, emit func(op, obs string),
 							Expected: "user[0]", Actual: o.frame + " in " + o.payload})
 					}
 				}
+			}
+			if format != "c" {
+				// other working directories (a daemon's chdir("/"), a sibling whose name starts like the source directory),
+				// privacy flags off: the reported file is the file of the statement, or a relative path that leads to it
+				wd0, _ := os.Getwd()
+				for _, dir := range []string{"/", filepath.Dir(wd0), os.TempDir()} {
+					if os.Chdir(dir) != nil {
+						continue
+					}
+					slog.SetFlags((slog.LstdFlags | slog.Lcaller | slog.LnoInterrupt) &^ (slog.Lprivacypath | slog.Lprivacypathregexp))
+					base.SetSkip(0)
+					cc := &c14ctx{l: base, ctx: ctx, msg: "m"}
+					rec.take()
+					c14w4(cc, c14calls[4].f)
+					w := rec.take()
+					reported := ""
+					if len(w) == 1 {
+						if format == "j" {
+							var obj struct {
+								Caller struct{ File string } `json:"caller"`
+							}
+							_ = json.Unmarshal(w[0], &obj)
+							reported = obj.Caller.File
+						} else if m := regexp.MustCompile(`caller\.file=("(?:[^"\\]|\\.)*")`).FindSubmatch(w[0]); m != nil {
+							reported, _ = strconv.Unquote(string(m[1]))
+						}
+					}
+					want := ""
+					if len(cc.frames) > 0 {
+						want = cc.frames[0].File
+					}
+					resolved := reported
+					if !filepath.IsAbs(reported) {
+						resolved = filepath.Join(dir, reported)
+					}
+					seen(fmt.Sprintf("%s|%s|%s|cwd=%s", build, format, kind, dir))
+					if reported == "" || filepath.Clean(resolved) != want {
+						violate(violation{What: "the reported file does not name the file of the statement (working directory changed, privacy flags off)",
+							Input:    map[string]any{"build": build, "format": format, "logger": kind, "working_directory": dir},
+							Expected: want, Actual: reported})
+					}
+				}
+				_ = os.Chdir(wd0)
+				slog.SetFlags(slog.LstdFlags | slog.Lcaller | slog.LnoInterrupt)
 			}
 			// two logical functions in one physical function (when the helper is inlined)
 			base.SetSkip(0)
